@@ -162,51 +162,112 @@ def _finders(model, rep):
            "reference coordinates = invF(points, candidate cells)", path,
            f"{clsn}.element_finder", "the query points are not pulled back "
            "through the inverse map of the candidate cells", line)
-        # ---- error discipline
-        top = f.body
-        guards = [i for i, s in enumerate(top) if isinstance(s, ast.If)
-                  and "inside" in src(s.test)]
-        rets = [i for i, s in enumerate(top) if isinstance(s, ast.Return)]
-        okg = False
-        detail = "no 'every point found' test before the index is returned"
-        if len(guards) == 1 and rets and rets[-1] > guards[0]:
-            g = top[guards[0]]
-            t = src(g.test).replace(" ", "")
-            test_ok = t in ("notinside.max(axis=0).all()",
-                            "notinside.any(axis=0).all()",
-                            "not(inside.max(axis=0)).all()")
-            body = g.body
-            raises = [s for s in body if isinstance(s, ast.If)
-                      and src(s.test) == "_search_all"
-                      and s.body and isinstance(s.body[-1], ast.Raise)]
-            last = body[-1] if body else None
-            fallback = (isinstance(last, ast.Return)
-                        and isinstance(last.value, ast.Call)
-                        and src(last.value.func) == f.name
-                        and any(k.arg == "_search_all"
-                                and src(k.value) == "True"
-                                for k in last.value.keywords))
-            direct_raise = isinstance(last, ast.Raise)
-            okg = test_ok and ((len(raises) == 1 and fallback)
-                               or direct_raise)
-            detail = (f"test '{src(g.test)}', exhaustive pass raises: "
-                      f"{bool(raises) or direct_raise}, fallback to the "
-                      f"exhaustive pass: {fallback}")
-        _v(rep, R1, okg, f"{clsn}.finder:error-discipline",
-           "index returned only after 'every point lies in some candidate'; "
-           "otherwise all cells are searched, and then a miss raises", path,
-           f"{clsn}.element_finder",
-           f"a cell index can be returned for a point no cell contains "
-           f"({detail}): argmax of an all-False column is 0", line)
-        # the exhaustive pass really searches all cells
-        alls = [n for n in ast.walk(f) if isinstance(n, ast.Assign)
-                and src(n.targets[0]) == "ix"
-                and "np.arange(nelems" in src(n.value)]
-        _v(rep, R1, len(alls) == 1, f"{clsn}.finder:exhaustive",
-           "the fallback pass takes every cell as candidate", path,
-           f"{clsn}.element_finder", "the fallback pass does not search all "
-           "cells", line)
+        _finder_logic(model, rep, modn, clsn, dim, path, line)
     _line_finder(model, rep)
+
+
+def _finder_logic(model, rep, modn, clsn, dim, path, line):
+    """Everything in the simplex finder after the containment test is
+    boolean bookkeeping over (candidate cells) x (query points).  The
+    KD-tree and the inverse map are replaced by oracles - arbitrary
+    candidate lists and an arbitrary containment relation - and the finder
+    is interpreted on a family of small cases: every point must get a cell
+    that contains it (whether or not that cell was among its candidates),
+    and the call must raise when some point lies in no cell, alone or in a
+    batch with points that are found."""
+    from itertools import product
+    from .. import nlite
+    from ..nlite import NArr
+    R1 = "C14-R1"
+    cls = model.cls(modn, clsn)
+    fn = cls.methods["element_finder"]
+    # number of candidates asked from the tree: min(K, nelems)
+    ks = [int(n.args[0].value) for n in ast.walk(fn.node)
+          if isinstance(n, ast.Call) and src(n.func) == "min"
+          and len(n.args) == 2 and isinstance(n.args[0], ast.Constant)]
+    K = ks[0] if ks else 5
+    NE = K + 2
+    cont_opts = [frozenset(), frozenset({0}), frozenset({K // 2}),
+                 frozenset({NE - 1}), frozenset({1, 2})]
+    cand_opts = [list(range(K)), list(range(NE - K, NE)),
+                 [NE - 1, 0] + list(range(2, K))]
+    inside_val = Fraction(1, dim + 2)
+    first_bad = {}
+    ncase = 0
+    for conts in product(cont_opts, repeat=2):
+        for cands in product(cand_opts, repeat=2):
+            ncase += 1
+            asked = {}
+
+            class Tree:
+                def skv_getattr(self, name):
+                    if name == "query":
+                        def q(a, k, n):
+                            asked["k"] = a[1]
+                            return (None, NArr([list(c) for c in cands]))
+                        return PyFunc(q)
+                    raise Unsupported("tree." + name)
+
+            def invF(a, k, n):
+                ix = a[1] if len(a) > 1 else k.get("tind")
+                cells = [int(c) for c in ix.data]
+                asked["ix"] = cells
+                return NArr([[[inside_val if c in conts[q] else Fraction(-1)
+                               for q in range(2)] for c in cells]
+                             for _ in range(dim)])
+            mapping = Obj(None, {"invF": PyFunc(invF)})
+
+            class TS:
+                def skv_getattr(self, name):
+                    if name == "shape":
+                        return (dim + 1, NE)
+                    raise Unsupported("t." + name)
+            obj = Obj(cls, {"_cached_tree": Tree(), "t": TS()})
+            try:
+                it = Interp(model, call_hook=nlite.hook)
+                finder = it.call(fn, [], {"mapping": mapping}, self_obj=obj)
+                pts = [NArr([Fraction(0), Fraction(1)]) for _ in range(dim)]
+                try:
+                    r = it.apply(finder, pts, {}, fn.node)
+                    out = ("ok", [int(v) for v in r.data])
+                except Raised as e:
+                    out = ("raised", e.what)
+            except Unsupported as e:
+                raise AnalysisError(f"{clsn}.element_finder outside "
+                                    f"grammar: {e}")
+            except Raised as e:
+                raise AnalysisError(f"{clsn}.element_finder raises while "
+                                    f"being set up: {e.what}")
+            desc = (f"points contained in cells {[sorted(c) for c in conts]}"
+                    f", candidates {list(cands)} of {NE} cells")
+            if any(not c for c in conts):
+                if out[0] != "raised":
+                    first_bad.setdefault(
+                        "outside", f"a point that lies in no cell gets "
+                        f"cell(s) {out[1]} instead of an error ({desc})")
+            else:
+                if out[0] != "ok":
+                    first_bad.setdefault(
+                        "inside", f"points that lie in the mesh make the "
+                        f"finder raise ({out[1]}; {desc})")
+                elif len(out[1]) != 2 or any(
+                        out[1][q] not in conts[q] for q in range(2)):
+                    first_bad.setdefault(
+                        "inside", f"the finder returns cells {out[1]} "
+                        f"({desc}): a point is assigned a cell that does "
+                        f"not contain it")
+    for key, okmsg in (("inside", "every point gets a cell that contains "
+                        "it, whether or not the cell was among its "
+                        "candidates"),
+                       ("outside", "a point in no cell raises, alone or "
+                        "in a batch with points that are found")):
+        cons = f"{clsn}.finder:error-discipline[{key}]"
+        if key in first_bad:
+            rep.fail(R1, path, f"{clsn}.element_finder", cons,
+                     first_bad[key], line)
+        else:
+            rep.ok(R1, cons, okmsg + f" ({ncase} oracle cases, "
+                   f"{NE} cells, {K} candidates per point)")
 
 
 def _line_finder(model, rep):
